@@ -343,6 +343,12 @@ def c06(ap, obs, sc):
             bad.append({"what": "a task with booked work has zero length", "task": t, "start": st["start"], "usage": u})
             continue
         s0, s1 = slot_of(obs, st["start"]), slot_of(obs, st["end"] - 1)
+        # an end reported on a slot boundary may be the rounded end of less than one second of work in the
+        # slot that begins there (and likewise a start on a boundary with sub-second work in the slot before)
+        if (st["end"] - obs["start"]) % G == 0 and 0.0 < slots.get(slot_of(obs, st["end"]), 0.0) < 1.0:
+            s1 = slot_of(obs, st["end"])
+        if (st["start"] - obs["start"]) % G == 0 and 0.0 < slots.get(s0 - 1, 0.0) < 1.0:
+            s0 = s0 - 1
         if first < s0 or last > s1:
             bad.append({"what": "work is booked outside [start, end]", "task": t, "start": st["start"], "end": st["end"],
                         "first_booked_slot_start": obs["start"] + first * G, "last_booked_slot_start": obs["start"] + last * G})
